@@ -182,28 +182,186 @@ package gocql
 //@   ensures result == nil ==> all(k, 0, 4, f.buf[k] == old(f.buf[k]))
 //@   ensures result == nil && old(f.buf[1])&0x01 == 0 ==> len(f.buf) == old(len(f.buf)) && forall(k, f.headSize <= k && k < len(f.buf), f.buf[k] == old(f.buf[k]))
 
-// Writers with loops: the bytes already in the buffer (header included) are kept; the
-// primitives without loops (writeByte/Short/Int/Long/String/Bytes/...) are inlined by the
-// verifier, so their effect on the buffer is the code itself.
-//@ func (f *framer) writeStringList
+// Primitive writers for the notations of the spec (section 3): each appends exactly the encoding of its
+// argument at the end of the buffer and keeps every byte already written (header included).
+//@ predicate grows(f, n): len(f.buf) == old(len(f.buf)) + n && len(f.buf) >= old(len(f.buf)) && forall(k, 0 <= k && k < old(len(f.buf)), f.buf[k] == old(f.buf[k]))
+
+//@ func appendShort
+//@   props C03
+//@   ensures len(result) == len(p) + 2 && be16(result, len(p)) == n && forall(k, 0 <= k && k < len(p), result[k] == p[k])
+
+//@ func appendUint
+//@   props C03
+//@   ensures len(result) == len(p) + 4 && be32(result, len(p)) == n && forall(k, 0 <= k && k < len(p), result[k] == p[k])
+
+//@ func appendLong
+//@   props C03
+//@   ensures len(result) == len(p) + 8 && be64(result, len(p)) == uint64(n) && forall(k, 0 <= k && k < len(p), result[k] == p[k])
+
+//@ func (f *framer) writeByte
 //@   props C03
 //@   modifies f.buf
+//@   ensures grows(f, 1) && f.buf[old(len(f.buf))] == b
+
+//@ func (f *framer) writeShort
+//@   props C03
+//@   modifies f.buf
+//@   ensures grows(f, 2) && be16(f.buf, old(len(f.buf))) == n
+
+//@ func (f *framer) writeInt
+//@   props C03
+//@   modifies f.buf
+//@   ensures grows(f, 4) && be32(f.buf, old(len(f.buf))) == uint32(n)
+
+//@ func (f *framer) writeUint
+//@   props C03
+//@   modifies f.buf
+//@   ensures grows(f, 4) && be32(f.buf, old(len(f.buf))) == n
+
+//@ func (f *framer) writeLong
+//@   props C03
+//@   modifies f.buf
+//@   ensures grows(f, 8) && be64(f.buf, old(len(f.buf))) == uint64(n)
+
+// [string]: a [short] n followed by n bytes. A string longer than 65535 bytes has no [string] encoding.
+//@ func (f *framer) writeString
+//@   props C03
+//@   requires len(s) <= 65535
+//@   modifies f.buf
+//@   ensures grows(f, 2 + len(s)) && int(be16(f.buf, old(len(f.buf)))) == len(s)
+//@   ensures forall(k, 0 <= k && k < len(s), f.buf[old(len(f.buf)) + 2 + k] == s[k])
+
+// [long string]: an [int] n followed by n bytes
+//@ func (f *framer) writeLongString
+//@   props C03
+//@   requires len(s) <= 1<<31 - 1
+//@   modifies f.buf
+//@   ensures grows(f, 4 + len(s)) && int(int32(be32(f.buf, old(len(f.buf))))) == len(s)
+//@   ensures forall(k, 0 <= k && k < len(s), f.buf[old(len(f.buf)) + 4 + k] == s[k])
+
+// [bytes]: an [int] n followed by n bytes; null is n = -1 with nothing following
+//@ func (f *framer) writeBytes
+//@   props C03
+//@   requires len(p) <= 1<<31 - 1
+//@   modifies f.buf
+//@   ensures p == nil ==> grows(f, 4) && be32(f.buf, old(len(f.buf))) == 0xffffffff
+//@   ensures p != nil ==> grows(f, 4 + len(p)) && int(int32(be32(f.buf, old(len(f.buf))))) == len(p)
+//@   ensures p != nil ==> forall(k, 0 <= k && k < len(p), f.buf[old(len(f.buf)) + 4 + k] == p[k])
+
+// "unset" (v4+): the [int] -2 with nothing following
+//@ func (f *framer) writeUnset
+//@   props C03
+//@   modifies f.buf
+//@   ensures grows(f, 4) && be32(f.buf, old(len(f.buf))) == 0xfffffffe
+
+// [short bytes]: a [short] n followed by n bytes
+//@ func (f *framer) writeShortBytes
+//@   props C03
+//@   requires len(p) <= 65535
+//@   modifies f.buf
+//@   ensures grows(f, 2 + len(p)) && int(be16(f.buf, old(len(f.buf)))) == len(p)
+//@   ensures forall(k, 0 <= k && k < len(p), f.buf[old(len(f.buf)) + 2 + k] == p[k])
+
+// [consistency]: a [short]
+//@ func (f *framer) writeConsistency
+//@   props C03
+//@   modifies f.buf
+//@   ensures grows(f, 2) && be16(f.buf, old(len(f.buf))) == uint16(cons)
+
+// <query_parameters> (spec v2 4.1.4, v3/v4 4.1.4, v5 4.1.4): <consistency><flags>[<n>[name_1]<value_1>...]
+// [<result_page_size>][<paging_state>][<serial_consistency>][<timestamp>][<keyspace>]; flags is a [byte] up to v4
+// and an [int] in v5; v1 has the consistency only. The body is the concatenation of what the primitive writers
+// append (each proved above to append exactly its encoding), so the layout is the order and the arguments of
+// those calls: every `before` clause says what has been written so far and what is written now, the `at_return`
+// clauses that each announced field was written exactly once.
+//@ predicate qvals_ok(o): len(o.values) <= 65535 && forall(j, 0 <= j && j < len(o.values), len(o.values[j].name) <= 65535 && len(o.values[j].value) <= 1<<31 - 1)
+//@ predicate qparams_ok(o): qvals_ok(o) && len(o.keyspace) <= 65535 && len(o.pagingState) <= 1<<31 - 1 && o.pageSize <= 1<<31 - 1
+//@ func (f *framer) writeQueryParams
+//@   props C03
+//@   count_calls writeConsistency writeByte writeUint writeShort writeString writeUnset writeBytes writeInt writeLong
+// the default timestamp is the clock's: its value (nanoseconds / 1000) plays no role in the layout
+//@   abstract_quo int64
+//@   lean_before
+//@   requires opts != nil && qparams_ok(opts) && 1 <= f.proto && f.proto <= 5
+// a keyspace per request needs v5; with an older version the driver refuses (panics) instead of sending
+//@   requires f.proto <= 4 ==> opts.keyspace == ""
+//@   modifies f.buf
+//@   before[C03] writeConsistency: in_loop == -1 && ((writeConsistency_calls == 1 && arg1 == opts.consistency && writeByte_calls + writeUint_calls == 0) || (writeConsistency_calls == 2 && arg1 == Consistency(opts.serialConsistency) && opts.serialConsistency > 0 && writeByte_calls + writeUint_calls == 1 && writeLong_calls == 0))
+// the flags: one bit per optional field, exactly when that field follows
+//@   before[C03] writeByte: f.proto >= 2 && f.proto <= 4 && writeByte_calls == 1 && writeConsistency_calls == 1 && writeShort_calls + writeInt_calls + writeBytes_calls + writeLong_calls + writeString_calls + writeUnset_calls == 0
+//@   before[C03] writeByte: (arg1&0x01 != 0) == (len(opts.values) > 0) && (arg1&0x02 != 0) == opts.skipMeta && (arg1&0x04 != 0) == (opts.pageSize > 0) && (arg1&0x08 != 0) == (len(opts.pagingState) > 0) && (arg1&0x10 != 0) == (opts.serialConsistency > 0)
+//@   before[C03] writeByte: (arg1&0x20 != 0) == (f.proto > 2 && opts.defaultTimestamp) && (arg1&0x40 != 0) == (f.proto > 2 && len(opts.values) > 0 && opts.values[0].name != "") && arg1&0x80 == 0
+//@   before[C03] writeUint: f.proto >= 5 && writeUint_calls == 1 && writeConsistency_calls == 1 && writeShort_calls + writeInt_calls + writeBytes_calls + writeLong_calls + writeString_calls + writeUnset_calls == 0 && arg1 < 256
+//@   before[C03] writeUint: (arg1&0x01 != 0) == (len(opts.values) > 0) && (arg1&0x02 != 0) == opts.skipMeta && (arg1&0x04 != 0) == (opts.pageSize > 0) && (arg1&0x08 != 0) == (len(opts.pagingState) > 0) && (arg1&0x10 != 0) == (opts.serialConsistency > 0)
+//@   before[C03] writeUint: (arg1&0x20 != 0) == opts.defaultTimestamp && (arg1&0x40 != 0) == (len(opts.values) > 0 && opts.values[0].name != "") && (arg1&0x80 != 0) == (opts.keyspace != "")
+// the values: their number, then for each one its name (all or none, as the names flag says) and its [bytes] or "unset"
+//@   before[C03] writeShort: in_loop == -1 && writeShort_calls == 1 && writeByte_calls + writeUint_calls == 1 && len(opts.values) > 0 && int(arg1) == len(opts.values) && writeInt_calls + writeBytes_calls + writeLong_calls + writeString_calls + writeUnset_calls == 0
+//@   before[C03] writeString: in_loop == 0 ==> writeShort_calls == 1 && arg1 == opts.values[i].name && writeString_calls == i + 1 && writeBytes_calls + writeUnset_calls == i && f.proto > 2 && opts.values[0].name != ""
+//@   before[C03] writeUnset: in_loop == 0 && writeShort_calls == 1 && opts.values[i].isUnset && writeBytes_calls + writeUnset_calls == i + 1 && (f.proto > 2 && opts.values[0].name != "" ==> writeString_calls == i + 1)
+//@   before[C03] writeBytes: in_loop == 0 ==> writeShort_calls == 1 && !opts.values[i].isUnset && same(arg1, opts.values[i].value) && writeBytes_calls + writeUnset_calls == i + 1 && (f.proto > 2 && opts.values[0].name != "" ==> writeString_calls == i + 1)
+// the optional fields, in the order of the specification
+//@   before[C03] writeInt: in_loop == -1 && writeInt_calls == 1 && opts.pageSize > 0 && int(arg1) == opts.pageSize && writeByte_calls + writeUint_calls == 1 && (writeShort_calls == 1) == (len(opts.values) > 0) && writeBytes_calls + writeUnset_calls == len(opts.values) && writeConsistency_calls == 1 && writeLong_calls == 0
+//@   before[C03] writeBytes: in_loop == -1 ==> len(opts.pagingState) > 0 && same(arg1, opts.pagingState) && writeByte_calls + writeUint_calls == 1 && (writeShort_calls == 1) == (len(opts.values) > 0) && writeBytes_calls + writeUnset_calls == len(opts.values) + 1 && (writeInt_calls == 1) == (opts.pageSize > 0) && writeConsistency_calls == 1 && writeLong_calls == 0
+//@   before[C03] writeConsistency: writeConsistency_calls == 2 ==> (writeShort_calls == 1) == (len(opts.values) > 0) && writeBytes_calls + writeUnset_calls == len(opts.values) + ite(len(opts.pagingState) > 0, 1, 0) && (writeInt_calls == 1) == (opts.pageSize > 0)
+//@   before[C03] writeLong: in_loop == -1 && writeLong_calls == 1 && f.proto > 2 && opts.defaultTimestamp && (opts.defaultTimestampValue != 0 ==> arg1 == opts.defaultTimestampValue) && writeByte_calls + writeUint_calls == 1
+//@   before[C03] writeLong: (writeShort_calls == 1) == (len(opts.values) > 0) && writeBytes_calls + writeUnset_calls == len(opts.values) + ite(len(opts.pagingState) > 0, 1, 0) && (writeInt_calls == 1) == (opts.pageSize > 0) && writeConsistency_calls == ite(opts.serialConsistency > 0, 2, 1)
+//@   before[C03] writeString: in_loop == -1 ==> opts.keyspace != "" && arg1 == opts.keyspace && f.proto >= 5 && writeUint_calls == 1 && (writeShort_calls == 1) == (len(opts.values) > 0) && writeBytes_calls + writeUnset_calls == len(opts.values) + ite(len(opts.pagingState) > 0, 1, 0)
+//@   before[C03] writeString: in_loop == -1 ==> (writeInt_calls == 1) == (opts.pageSize > 0) && writeConsistency_calls == ite(opts.serialConsistency > 0, 2, 1) && (writeLong_calls == 1) == opts.defaultTimestamp
+// every announced field was written, exactly once; v1 has the consistency only
+//@   at_return[C03] f.proto == 1 ==> writeConsistency_calls == 1 && writeByte_calls + writeUint_calls + writeShort_calls + writeInt_calls + writeBytes_calls + writeLong_calls + writeString_calls + writeUnset_calls == 0
+//@   at_return[C03] f.proto >= 2 ==> writeByte_calls + writeUint_calls == 1 && (writeShort_calls == 1) == (len(opts.values) > 0) && writeBytes_calls + writeUnset_calls == len(opts.values) + ite(len(opts.pagingState) > 0, 1, 0)
+//@   at_return[C03] f.proto >= 2 ==> (writeInt_calls == 1) == (opts.pageSize > 0) && writeConsistency_calls == ite(opts.serialConsistency > 0, 2, 1) && (writeLong_calls == 1) == (f.proto > 2 && opts.defaultTimestamp)
+//@   at_return[C03] f.proto >= 2 ==> writeString_calls == ite(f.proto > 2 && len(opts.values) > 0 && opts.values[0].name != "", len(opts.values), 0) + ite(opts.keyspace != "", 1, 0)
+//@   running len(f.buf) >= old(len(f.buf)) + 2 && forall(k, 0 <= k && k < old(len(f.buf)), f.buf[k] == old(f.buf[k]))
+//@   ensures len(f.buf) >= old(len(f.buf)) + 2 && forall(k, 0 <= k && k < old(len(f.buf)), f.buf[k] == old(f.buf[k]))
+//@   loop 0: invariant 0 <= i && i <= n && n == len(opts.values)
+//@   loop 0: invariant writeBytes_calls + writeUnset_calls == i
+//@   loop 0: invariant writeString_calls == ite(names, i, 0)
+//@   loop 0: invariant names == (f.proto > 2 && opts.values[0].name != "")
+//@   loop 0: invariant writeShort_calls == 1 && writeByte_calls + writeUint_calls == 1 && writeInt_calls == 0 && writeLong_calls == 0 && writeConsistency_calls == 1
+//@   loop 0: invariant len(f.buf) >= old(len(f.buf)) + 2 && forall(k, 0 <= k && k < old(len(f.buf)), f.buf[k] == old(f.buf[k]))
+
+// [string list], [string map], [bytes map]: a [short] n, then the n elements / pairs. The layout is again the
+// order and the arguments of the primitive writes; a map is written in the order the range produces its
+// entries, each entry once (Go specification), the key followed by its value.
+//@ func (f *framer) writeStringList
+//@   props C03
+//@   count_calls writeShort writeString
+//@   requires len(l) <= 65535 && forall(j, 0 <= j && j < len(l), len(l[j]) <= 65535)
+//@   modifies f.buf
+//@   before[C03] writeShort: writeShort_calls == 1 && writeString_calls == 0 && int(arg1) == len(l)
+//@   before[C03] writeString: in_loop == 0 && writeShort_calls == 1 && 0 <= rangeindex + 1 && rangeindex + 1 < len(l) && writeString_calls == rangeindex + 2 && arg1 == l[rangeindex+1]
+//@   at_return[C03] writeShort_calls == 1 && writeString_calls == len(l)
 //@   ensures len(f.buf) >= old(len(f.buf)) + 2 && forall(k, 0 <= k && k < old(len(f.buf)), f.buf[k] == old(f.buf[k]))
 //@   ensures be16(f.buf, old(len(f.buf))) == uint16(len(l))
+//@   loop 0: invariant writeShort_calls == 1 && writeString_calls == rangeindex + 1 && -1 <= rangeindex && rangeindex < len(l)
 //@   loop 0: invariant len(f.buf) >= old(len(f.buf)) + 2 && forall(k, 0 <= k && k < old(len(f.buf)), f.buf[k] == old(f.buf[k])) && be16(f.buf, old(len(f.buf))) == uint16(len(l))
 
 //@ func (f *framer) writeStringMap
 //@   props C03
+//@   count_calls writeShort writeString
+//@   requires len(m) <= 65535 && forall(string(s), haskey(m, s) ==> len(s) <= 65535 && len(m[s]) <= 65535)
 //@   modifies f.buf
+//@   before[C03] writeShort: writeShort_calls == 1 && writeString_calls == 0 && int(arg1) == len(m)
+//@   before[C03] writeString: in_loop == 0 && writeShort_calls == 1 && haskey(m, k) && v == m[k] && ((writeString_calls == 2*itercount - 1 && arg1 == k) || (writeString_calls == 2*itercount && arg1 == v))
+//@   at_return[C03] writeShort_calls == 1 && writeString_calls == 2*len(m)
 //@   ensures len(f.buf) >= old(len(f.buf)) + 2 && forall(k, 0 <= k && k < old(len(f.buf)), f.buf[k] == old(f.buf[k]))
 //@   ensures be16(f.buf, old(len(f.buf))) == uint16(len(m))
+//@   loop 0: invariant writeShort_calls == 1 && writeString_calls == 2*itercount && itercount <= len(m)
 //@   loop 0: invariant len(f.buf) >= old(len(f.buf)) + 2 && forall(k, 0 <= k && k < old(len(f.buf)), f.buf[k] == old(f.buf[k])) && be16(f.buf, old(len(f.buf))) == uint16(len(m))
 
 //@ func (f *framer) writeBytesMap
 //@   props C03
+//@   count_calls writeShort writeString writeBytes
+//@   requires len(m) <= 65535 && forall(string(s), haskey(m, s) ==> len(s) <= 65535 && len(m[s]) <= 1<<31 - 1)
 //@   modifies f.buf
+//@   before[C03] writeShort: writeShort_calls == 1 && writeString_calls + writeBytes_calls == 0 && int(arg1) == len(m)
+//@   before[C03] writeString: in_loop == 0 && writeShort_calls == 1 && haskey(m, k) && writeString_calls == itercount && writeBytes_calls == itercount - 1 && arg1 == k
+//@   before[C03] writeBytes: in_loop == 0 && writeShort_calls == 1 && haskey(m, k) && writeString_calls == itercount && writeBytes_calls == itercount && same(arg1, m[k])
+//@   at_return[C03] writeShort_calls == 1 && writeString_calls == len(m) && writeBytes_calls == len(m)
 //@   ensures len(f.buf) >= old(len(f.buf)) + 2 && forall(k, 0 <= k && k < old(len(f.buf)), f.buf[k] == old(f.buf[k]))
 //@   ensures be16(f.buf, old(len(f.buf))) == uint16(len(m))
+//@   loop 0: invariant writeShort_calls == 1 && writeString_calls == itercount && writeBytes_calls == itercount && itercount <= len(m)
 //@   loop 0: invariant len(f.buf) >= old(len(f.buf)) + 2 && forall(k, 0 <= k && k < old(len(f.buf)), f.buf[k] == old(f.buf[k])) && be16(f.buf, old(len(f.buf))) == uint16(len(m))
 
 // STARTUP and OPTIONS are never compressed (spec §5): their header is written with the compression bit cleared.
